@@ -318,7 +318,7 @@ func DefaultConsFamilies(quick bool, byzantine bool) ConsFamilies {
 		}
 		// a validator that sleeps and returns with arbitrarily stale knowledge, with and without an initial fork
 		f.Sleepers = []SleeperCfg{
-			{W: WV(1, 1, 1, 1), Epoch: 1, MinSleep: 3, MaxSleep: 5, Tail: 5, Forks: true, Rots: 1},
+			{W: WV(1, 1, 1, 1), Epoch: 1, MinSleep: 3, MaxSleep: 4, Tail: 4, Forks: true, Rots: 1},
 			// split votes on the first frame (one validator misses another's first event) + a sleeper
 			{W: WV(1, 1, 1, 1), Epoch: 1, MinSleep: 2, MaxSleep: 4, Tail: 4, DropInFirstRound: true, Rots: 2},
 		}
